@@ -64,6 +64,9 @@ func writeEvidence(p *Prop, tier string, seed int64, total *ShardResult, perPass
 	}
 	b, _ := json.MarshalIndent(ev, "", " ")
 	dir := filepath.Join(VerifDir, "evidence")
+	if d := os.Getenv("VERIF_EVIDENCE_DIR"); d != "" {
+		dir = d // development runs against a scratch copy of the repository (bin/check, VERIF_REPO)
+	}
 	_ = os.MkdirAll(dir, 0755)
 	_ = os.WriteFile(filepath.Join(dir, p.ID+".json"), append(b, '\n'), 0644)
 }
